@@ -146,7 +146,20 @@ pub fn ltx(t: &mut Toks) -> String {
                 }
                 let complete = match ver {
                     None => true,
-                    Some(v) => pool_chunks.iter().any(|c| c.3 == v && c.1 == c.4),
+                    Some(v) => {
+                        // the chunks are sent by one spawned task each and arrive in any order:
+                        // wait until those of this version tile 0..=last_seq (or the deadline)
+                        let mut mine: Vec<_> = pool_chunks.iter().filter(|c| c.3 == v).cloned().collect();
+                        mine.sort();
+                        mine.dedup();
+                        let mut next = 0u64;
+                        let mut tiled = !mine.is_empty();
+                        for c in &mine {
+                            if c.0 != next { tiled = false; break; }
+                            next = c.1 + 1;
+                        }
+                        tiled && mine.last().map(|c| c.1 == c.4).unwrap_or(false)
+                    }
                 };
                 if complete || std::time::Instant::now() > deadline {
                     break;
